@@ -847,6 +847,12 @@ func (prop) Execute(scAny any, phase string, log *core.Log) core.Result {
 				return res
 			}
 			res.Steps++
+			// the argument slice is the caller's: it is reused for something else
+			// right away (with room to spare, as an application's batch has)
+			spare := pgs[:len(pgs):cap(pgs)]
+			for j := range spare[:cap(spare)] {
+				spare[:cap(spare)][j] = geom.NewPointFlat(geom.XY, []float64{-777, -777})
+			}
 			log.Addf("%s recv %s n=%d bad=%d err=%v", after, names[op.R], len(pgs), bad, err)
 			if bad < 0 {
 				if err != nil {
